@@ -666,7 +666,7 @@ def poly_of(e, atomizer, depth=0):
 
 # ---------------------------------------------------------------- decision tables of loop-free bodies
 
-def decision_paths(fn, limit=400):
+def decision_paths(fn, limit=400, with_calls=False):
     """Enumerate the acyclic entry→return paths of a loop-free body, evaluating assignments
     flow-sensitively into expression trees (parameters stay symbolic, calls stay opaque).
     Returns [(conditions, result)] with conditions = [(discr_expr, chosen_value or None for `otherwise`,
@@ -692,6 +692,10 @@ def decision_paths(fn, limit=400):
                     e = ("overflowflag",)
                 elif e[0] == "agg" and nm in e[2]:
                     e = e[2][nm]
+                elif e[0] == "upd" and nm in e[2]:
+                    e = e[2][nm]
+                elif e[0] == "upd":
+                    e = ("field", e[1], nm, el.get("of"))
                 elif e[0] == "tuple" and nm.isdigit() and int(nm) < len(e[1]):
                     e = e[1][int(nm)]
                 else:
@@ -765,12 +769,20 @@ def decision_paths(fn, limit=400):
                     d = dict(base[2])
                     d[el["name"]] = v
                     env[lhs["l"]] = ("agg", base[1], d)
+                elif base is not None and base[0] in ("call", "upd") and isinstance(el, dict) and "f" in el and len(lhs["p"]) == 1:
+                    # field update of a by-value struct that came out of a call: remember the overridden fields
+                    d = dict(base[2]) if base[0] == "upd" else {}
+                    d[el["name"]] = v
+                    env[lhs["l"]] = ("upd", base[1] if base[0] == "upd" else base, d)
                 else:
                     env[("store", len(env))] = ("store", ev_place(lhs, env) if lhs["l"] in env or lhs["l"] <= fn.arg_count else None, v)
         t = blk["term"]
         k = t["k"]
         if k == "return":
-            out.append((conds, env.get(0)))
+            if with_calls:
+                out.append((conds, env.get(0), list(env.get("#calls", ()))))
+            else:
+                out.append((conds, env.get(0)))
         elif k == "goto":
             go(t["target"], env, conds, seen)
         elif k == "switch":
@@ -796,6 +808,7 @@ def decision_paths(fn, limit=400):
             d = t["dest"]
             if not d["p"]:
                 env[d["l"]] = ("call", name, args, t.get("fn"), (bb, d["l"]))
+            env["#calls"] = tuple(env.get("#calls", ())) + ((name, (bb, d["l"]), args),)
             if t["target"] is not None:
                 go(t["target"], env, conds, seen)
         elif k in ("assert", "drop"):
